@@ -133,7 +133,7 @@ theorem float_num (x : N) : float [.num x] = .ok (.num x) := rfl
 theorem float_of_string (s : Str) :
     float [(.str s : Value N)] = match NumOps.parse (N := N) s with
       | some x => .ok (.num x)
-      | none => .error (custom "invalid float literal") := rfl
+      | none => .error (parseFloatError s) := rfl
 theorem float_arr (vs : List (Value N)) : float [.arr vs] = .error .wrongParameterType := rfl
 theorem float_wrong_count (ps : List (Value N)) (h : ps.length ≠ 1) : float ps = .error (.wrongParameterCount 1) := by
   match ps, h with
@@ -141,16 +141,18 @@ theorem float_wrong_count (ps : List (Value N)) (h : ps.length ≠ 1) : float ps
   | a :: _ :: _, _ => cases a <;> rfl
   | [_], h => simp at h
 
-/-- the model's error text for EVERY unparsable text, the empty text included.  (Rust's `ParseFloatError` prints
-    "cannot parse float from empty string" for `float("")` — the model does not distinguish that kind; reported.) -/
+/-- the error for EVERY unparsable text: std's `ParseFloatError` text ("cannot parse float from empty string" for `float("")`, "invalid float
+    literal" otherwise) as a custom error -/
 theorem float_unparsable (s : Str) (h : NumOps.parse (N := N) s = none) :
-    float [(.str s : Value N)] = .error (custom "invalid float literal") := by rw [float_of_string, h]
+    float [(.str s : Value N)] = .error (parseFloatError s) := by rw [float_of_string, h]
 
 example : float [(.bool true : Value Float)] = .ok (.num 1) := float_bool true
 example : float [(.str ['1','e','3'] : Value Float)] = .ok (.num 1000) := by
   rw [float_of_string]; have : NumOps.parse (N := Float) ['1','e','3'] = some 1000 := by decide +kernel
   rw [this]
 example : float [(.str ['a'] : Value Float)] = .error (custom "invalid float literal") :=
+  float_unparsable _ (by decide +kernel)
+example : float [(.str [] : Value Float)] = .error (custom "cannot parse float from empty string") :=
   float_unparsable _ (by decide +kernel)
 
 /-- `int` is `float` followed by `trunc` -/
@@ -164,7 +166,7 @@ theorem int_bool (b : Bool) : int [(.bool b : Value N)] = .ok (.num (NumOps.trun
 theorem int_of_string (s : Str) :
     int [(.str s : Value N)] = match NumOps.parse (N := N) s with
       | some x => .ok (.num (NumOps.trunc x))
-      | none => .error (custom "invalid float literal") := by
+      | none => .error (parseFloatError s) := by
   simp only [int, float]; cases NumOps.parse (N := N) s <;> rfl
 
 example : int [(.str ['-','2','.','7'] : Value Float)] = .ok (.num (-2)) := by
